@@ -179,6 +179,13 @@ class KernelShim:
             _strapdown.integrate = self.real
         return False
 
+    def reinstall(self):
+        """After pyins.strapdown was re-executed (module reload) the module global points
+        at the real kernel again: put the shim back."""
+        if self.engaged and _strapdown.integrate is not self._shim:
+            self.real = _strapdown.integrate
+            _strapdown.integrate = self._shim
+
 
 class InitialSize:
     """Per-run capacity knob: ``Integrator.INITIAL_SIZE`` (class attribute seam)."""
